@@ -148,7 +148,8 @@ def run(ctx):
              str([P.describe(r) + str(list(norm_path(p))) for r, p in wire_tc]))
         for bb, t in g.calls():
             if F.callee_fn(t) is insert_m and ctx_param is not None:
-                st = P.root(P.operand(g, t['args'][ctx_param - 1], at=bb))
+                from .common import lifter
+                st = P.root(lifter(F, P, reach)(g, P.operand(g, t['args'][ctx_param - 1], at=bb)))
                 ok = bool(st) and {r for r, _ in st} == {r for r, _ in wire_id} and all(P.fpath(p)[-1:] == (dr_ctx_field,) for r, p in st)
                 R.ob('C18.wire', ('dispatch poll', 'table stores that context'), ok,
                      'the context stored in the in-flight table under the id is the same call\'s context', [g.loc(t)])
